@@ -214,14 +214,34 @@ def compile_error(text, filename):
         parsetree.ast = saved
 
 
-def error_display(text, filename):
+def template_error(text, filename):
+    """(exception class name, lineno, pos) of the full real compilation (lexing, node construction with real Python parsing, code generation)"""
+    from mako.template import Template
+    from mako import exceptions
+    try:
+        Template(text, filename=filename)
+    except (exceptions.SyntaxException, exceptions.CompileException) as e:
+        return (type(e).__name__, e.lineno, e.pos)
+    return (None, None, None)
+
+
+def error_display(text, filename, via="direct"):
     """what html_error_template shows for the compile error of `text`:
-    (lineno, list of displayed source lines, index of the line for lineno in that list) or None if it compiles"""
+    (lineno, list of displayed source lines, index of the line for lineno in that list) or None if it compiles.
+    via="include": the faulty template is compiled for the first time while another template, which includes it, is rendering"""
     import sys
     from mako import exceptions
     from mako.template import Template
     try:
-        Template(text, filename=filename)
+        if via == "include":
+            from mako.lookup import TemplateLookup
+            lk = TemplateLookup()
+            lk.put_string("/parent.html", "p1\np2\np3\np4\np5\n<%include file='/broken.html'/>\np7\n")
+            # the faulty template is only compiled when the include runs
+            lk.get_template = (lambda orig: (lambda uri: Template(text, filename=filename, lookup=lk) if uri == "/broken.html" else orig(uri)))(lk.get_template)
+            lk.get_template("/parent.html").render()
+        else:
+            Template(text, filename=filename)
         return None
     except (exceptions.SyntaxException, exceptions.CompileException) as e:
         err = e
